@@ -698,17 +698,34 @@ func (r *yieldRewriter) rewriteReturnAndForSwitchInitStmtInYieldFun(body *ast.Bl
 			if inYieldFunc() && n.Tok == token.DEFINE && c.Index() >= 0 && n.TokPos.IsValid() /*not generated*/ {
 				info := r.pkg.TypeInfo()
 				var assigns []ast.Stmt
-				for i, lhs := range n.Lhs {
-					id, _ := lhs.(*ast.Ident)
-					if id == nil || isUnderline(id) || !id.NamePos.IsValid() {
-						continue
-					}
+				var lhs, rhs []ast.Expr
+				for i, l := range n.Lhs {
+					id, _ := l.(*ast.Ident)
 					// redeclared: not defined but used here (generated idents are neither)
-					if info.Defs[id] == nil && info.Uses[id] != nil {
+					redeclared := id != nil && !isUnderline(id) && id.NamePos.IsValid() &&
+						info.Defs[id] == nil && info.Uses[id] != nil
+					switch {
+					case !redeclared:
+						lhs = append(lhs, l)
+					case len(n.Lhs) == len(n.Rhs) && (info.Types[n.Rhs[i]].Value != nil || info.Types[n.Rhs[i]].IsNil()):
+						// a constant / nil takes its type from n (var n float64; n, m := 1, 2),
+						// it has no effect and doesn't depend on the others, just assign it afterwards
+						assigns = append(assigns, X.Assign(token.ASSIGN, id, n.Rhs[i]))
+						continue
+					default:
 						r.tmpCnt++
 						tmp := X.Ident(cstRedefineVar + strconv.Itoa(r.tmpCnt))
-						n.Lhs[i] = tmp
+						lhs = append(lhs, tmp)
 						assigns = append(assigns, X.Assign(token.ASSIGN, id, tmp))
+					}
+					if len(n.Lhs) == len(n.Rhs) {
+						rhs = append(rhs, n.Rhs[i])
+					}
+				}
+				if len(assigns) > 0 {
+					n.Lhs = lhs
+					if len(rhs) > 0 {
+						n.Rhs = rhs
 					}
 				}
 				for i := len(assigns) - 1; i >= 0; i-- {
